@@ -267,6 +267,8 @@ def _poly(ctx, p, rng):
         cgs, _ = progs.record(fs, [_rec_operand(rec, xr, rng)])
     except Exception as e:
         ctx.skip('not-traceable:poly:' + rec); return
+    if not all(isinstance(g.dependentFunctionList[0], algopy.Function) for g in (cgv, cgs)):
+        ctx.skip('degenerate-program (the generated polynomial is constant: nothing was traced)'); return
     cgv, cgs = _dup(rng, cgv), _dup(rng, cgs)
     pts = [xr.copy()] + [rng.integers(-3, 4, size=N).astype(float), np.round(rng.normal(size=N) * 1.5, 3), np.round(rng.normal(size=N), 3)]
     kept = []          # results handed out earlier must not be changed by later driver calls
